@@ -1,7 +1,8 @@
 #!/bin/bash
 # dev aid: run the repository's pinned suite (guard off) and compare with BASELINE.json's stable_pass list
 out=$(mktemp /tmp/junit.XXXX.xml)
-(cd ${1:-/repo} && env -u DATEUTIL_VERIF /venv/bin/python -m pytest -ra -q -p no:cacheprovider --timeout=900 --continue-on-collection-errors --junitxml=$out >/dev/null 2>&1)
+wt=${1:-/repo}
+(cd $wt && env -u DATEUTIL_VERIF PYTHONPATH=$wt/src /venv/bin/python -m pytest -ra -q -p no:cacheprovider --timeout=900 --continue-on-collection-errors --junitxml=$out >/dev/null 2>&1)
 /venv/bin/python - $out <<'PY'
 import sys, json, xml.etree.ElementTree as ET
 base = set(json.load(open('/root/.vp/BASELINE.json'))['stable_pass'])
